@@ -269,3 +269,27 @@ Definition compact (s : srv) (force : bool) (row : option chdr) : option srv :=
   else Some (mkSrv (match row with Some c => [mkSt 1 c] | None => [] end)
                    (match row with Some _ => 1 | None => 0 end)
                    (s_epoch s + 1) (s_removed s) (s_nopres s) (s_clients s) [] (s_threshold s)).
+
+(* pullSnapshot: which changes the snapshot document is made of, in the order they are applied.
+   BuildInternalDocForServerSeq(initialServerSeq) replays the stored log up to the server sequence
+   before this request's push; then the changes of the request that THIS request stored - the last
+   docInfo.ServerSeq - initialServerSeq of them - are applied on top.  [s] is the server before the
+   request, [s2] after it. *)
+Definition req_changes (s : srv) (q : req) : list chdr :=
+  if s_nopres s then strip_presence (q_changes q) else q_changes q.
+
+Definition pushed_by (s : srv) (q : req) : list chdr :=
+  match aget (s_clients s) (q_client q) with
+  | None => []
+  | Some ci => filter (fun c => negb (h_cseq c <=? cd_cseq (ci_doc ci))) (req_changes s q)
+  end.
+
+Definition snapshot_changes (s s2 : srv) (q : req) : list chdr :=
+  let n := length (pushed_by s q) in
+  map st_ch (firstn (Z.to_nat (s_head s2 - Z.of_nat n)) (s_log s2)) ++
+  skipn (length (req_changes s q) - n) (req_changes s q).
+
+(* before fix 56275d99 (finding P45): every change of the request was applied on top *)
+Definition snapshot_changes_resend (s s2 : srv) (q : req) : list chdr :=
+  let n := length (pushed_by s q) in
+  map st_ch (firstn (Z.to_nat (s_head s2 - Z.of_nat n)) (s_log s2)) ++ req_changes s q.
